@@ -244,12 +244,15 @@ def check_elitism_beside_other_branches(h: Harness):
         w = rng.choice([[1, 1], [2, 1], [3, 1], [1, 2]])
         step = ParallelStep([branch, ElitismStep()], weights=w)
         given = list(inds)
-        res = sc.run_step(step, problem, rep, sc.TwoStreamSource([rng.randrange(0, 1000) for _ in range(200)]), given, n)
-        h.seen(f"par-elitism:{t}:{first}:{w}:{triples}")
+        # asked for k <= n individuals (a nested survivors block, a shrinking population): elitism still picks from the whole input
+        k = n if rng.random() < 0.5 else rng.randint(2, n)
+        res = sc.run_step(step, problem, rep, sc.TwoStreamSource([rng.randrange(0, 1000) for _ in range(200)]), given, k)
+        h.seen(f"par-elitism:{t}:{first}:{w}:{k}:{triples}")
         h.count(f"elitism-beside:{first}")
+        h.count("elitism-beside:target<population" if k < n else "elitism-beside:target=population")
         if isinstance(res, str):
             continue
-        ranges = step.compute_ranges(inds, n)
+        ranges = step.compute_ranges(inds, k)
         k_elite = ranges[-1][1] - ranges[-1][0]
         if k_elite <= 0:
             continue
@@ -258,8 +261,8 @@ def check_elitism_beside_other_branches(h: Harness):
         got = sorted((e.genotype[1] for e in elite), reverse=True)
         if got != aggs[:k_elite]:
             h.fail("ParallelStep.apply", "elitism-slot-not-top-k-of-input",
-                   f"par[{first}, elitism]{w} on aggregates {[a for (_, a, _) in triples]}: the elitism slot returned aggregates {got}, "
-                   f"the best {k_elite} of the input population are {aggs[:k_elite]}", {"triples": triples, "first": first, "weights": w})
+                   f"par[{first}, elitism]{w}, target_size={k}, on aggregates {[a for (_, a, _) in triples]}: the elitism slot returned aggregates {got}, "
+                   f"the best {k_elite} of the input population are {aggs[:k_elite]}", {"triples": triples, "first": first, "weights": w, "k": k})
         if [id(x) for x in given] != [id(x) for x in inds]:
             h.fail("ParallelStep.apply", "input-population-list-modified",
                    f"par[{first}, elitism]: the population list handed to the step was edited ({len(inds)} -> {len(given)} individuals)",
